@@ -258,10 +258,11 @@ def stmt_case(rng, k):
     funcs = []
     for j in range(rng.randint(2, 5)):
         filler = rng.choice(FILLERS[:6] + ["p", "q.r"])
+        minimal = rng.random() < 0.3       # the container holds exactly the instance: every elision stands for nothing
         inst = []
         for m in minus:
             if m == "...":
-                inst += [rng.choice(STMT_POOL[:9]) for _ in range(rng.randint(0, 3))]
+                inst += [rng.choice(STMT_POOL[:9]) for _ in range(0 if minimal else rng.randint(0, 3))]
             elif m in ("if cond {", "}"):
                 inst.append(m)
             else:
@@ -271,13 +272,13 @@ def stmt_case(rng, k):
                     if mm:
                         t = mm[1]
                 inst.append(t)
-        before = [rng.choice(STMT_POOL[:11]) for _ in range(rng.randint(0, 3))]
+        before = [rng.choice(STMT_POOL[:11]) for _ in range(0 if minimal else rng.randint(0, 3))]
         # a decoy: the first pattern statement with another binding, before the real instance
-        if "x" in meta and rng.random() < 0.5:
+        if "x" in meta and rng.random() < 0.5 and not minimal:
             first = next((m for m in minus if re.search(r"\bx\b", m)), None)
             if first and "identifier" not in meta:
                 before.append(re.sub(r"\bx\b", rng.choice(["decoy1", "d.e"]), first))
-        after = [rng.choice(STMT_POOL) for _ in range(rng.randint(0, 3))]
+        after = [rng.choice(STMT_POOL) for _ in range(0 if minimal else rng.randint(0, 3))]
         body = before + inst + after
         wrap = rng.choice(["func h%d() {\n\t%s\n}", "func h%d() {\n\tif ok {\n\t%s\n\t}\n}", "func h%d() {\n\tswitch v {\n\tcase 1:\n\t%s\n\t}\n}",
                            "func h%d() {\n\tselect {\n\tcase <-c:\n\t%s\n\t}\n}", "func h%d() {\n\tfor {\n\t%s\n\t}\n}",
